@@ -68,7 +68,7 @@ func Run(r *core.Run) {
 	listLen := core.Pick(r, 4, 5)
 	r.Rule = fmt.Sprintf("documents: single keys over 6 types x all 32 purpose subsets x {JWK, base58} (valid combinations per the constraint predicate) + 2-3 key combinations, 0-2 services with extra members, 0-2 also-known-as; "+
 		"x 16 option combinations (+ custom / incomplete key-context map) x both transformers; histories on one shared transformer: all sequences (a,b,a) (thorough: all (a,b,c)) over documents that reuse the key id / service id with other material, types and DIDs; metadata: commitments {empty,set} x anchor origin {nil,string,object} x deactivated x created/updated/version {0,set} x published x canonical/equivalent ids; "+
-		"operation lists: all sequences of length <= %d over (time, number) in {0,1,2}^2 x 2 canonical references, and lists of 13-64 (thorough: -257) operations in every rotation, reversed, interleaved and organ-pipe order with time blocks of 1, 2, 3, n/2, n; distinct = distinct (document, options) / model / list cases; non-trivial = all", listLen)
+		"operation lists: all sequences of length <= %d over (time, number) in {0,1,2}^2 x 2 canonical references, all sequences of length <= 3 over (time, number) in {0,1,2^63-1,2^63,2^63+1,2^64-1}^2, and lists of 13-64 (thorough: -257) operations in every rotation, reversed, interleaved and organ-pipe order with time blocks of 1, 2, 3, n/2, n; distinct = distinct (document, options) / model / list cases; non-trivial = all", listLen)
 	r.Assumptions = []string{"reference result ref/resolution written from the statement (DID core vocabulary)", "operations with equal (time, number) may come in any order (compared as multisets)",
 		"'updated time without version id' and 'created time while unpublished' are observed, not judged"}
 	const did = "did:sidetree:EiSuffix"
@@ -448,6 +448,50 @@ func Run(r *core.Run) {
 	})
 	_ = rec
 	_ = lists
+	// values from the whole 64-bit range: all sequences of length <= 3 over (time, number) in {0, 1, 2^63-1, 2^63, 2^63+1, 2^64-1}^2
+	// (an order decided by subtraction or by a signed comparison goes wrong when two values are more than 2^63 apart)
+	{
+		wide := []uint64{0, 1, 1<<63 - 1, 1 << 63, 1<<63 + 1, 1<<64 - 1}
+		var ws []sym
+		for _, t := range wide {
+			for _, n := range wide {
+				ws = append(ws, sym{t, n, []string{"refA", "refB"}[len(ws)%2]})
+			}
+		}
+		tr := didtransformer.New(didtransformer.WithIncludePublishedOperations(true), didtransformer.WithIncludeUnpublishedOperations(true))
+		inf := protocol.TransformationInfo{"id": did, "published": true}
+		core.Parallel(len(ws), func(first int) {
+			var local [][]int
+			var rec2 func(prefix []int)
+			rec2 = func(prefix []int) {
+				local = append(local, append([]int{}, prefix...))
+				if len(prefix) == 3 {
+					return
+				}
+				for i := range ws {
+					rec2(append(prefix, i))
+				}
+			}
+			rec2([]int{first})
+			for _, l := range local {
+				l := l
+				at := func(i int) (uint64, uint64, string) { return ws[l[i]].t, ws[l[i]].n, ws[l[i]].ref }
+				if f := judgeList(tr, inf, syms2ops(l, at)); f != nil {
+					id := "oplist-wide/" + fmt.Sprint(l)
+					r.Case(id, func() *core.Fail {
+						g := judgeList(tr, inf, syms2ops(l, at))
+						if g != nil {
+							g.Key = "oplist-wide/" + classifyList(l, func(i int) (uint64, uint64) { return ws[l[i]].t, ws[l[i]].n })
+						}
+						return g
+					})
+				}
+			}
+			r.Eval(int64(len(local)))
+			r.AddDistinct(int64(len(local)))
+		})
+		r.Class("wide-operation-lists")
+	}
 	// long lists: library sorts change their algorithm with the length (Go's sort.Slice: insertion sort up to 12 elements, pdqsort
 	// above; the latter is not stable), so lists of 13-100 operations are presented in every rotation of the anchoring order, reversed,
 	// interleaved and organ-pipe, with blocks of 1, 2, 3, n/2 and n operations that share a transaction time
